@@ -17,7 +17,7 @@ Judge(e) ==
   IF e.result # r.result THEN "result"
   ELSE IF r.result = "source" /\ e.payload # (IF e.srckind = "iter" THEN 1000 + e.k ELSE -1) THEN "payload"
   ELSE IF r.result = "sink" /\ e.payload # (IF e.sink = "store" THEN -2 ELSE 2000 + j) THEN "payload"
-  ELSE IF e.dknown /\ e.sink \in {"closure", "collect"} /\ e.delivered # r.delivered THEN "delivered"
+  ELSE IF e.dknown /\ e.sink \in {"closure", "collect", "serializer"} /\ e.delivered # r.delivered THEN "delivered"
   ELSE IF e.dknown /\ e.sink \in {"collect_set", "store"} /\ SetOf(e.delivered) # SetOf(kept) THEN "delivered"
   ELSE IF e.dknown /\ e.sink \in {"collect_set", "store"} /\ Len(e.delivered) # Cardinality(SetOf(kept)) THEN "duplicates"
   ELSE IF e.dknown /\ \E i \in 1..Len(e.alt) : e.alt[i] # e.delivered THEN "index-arms"
